@@ -9,8 +9,8 @@ import (
 
 func init() {
 	registerControl(controlDef{Name: "E5 verify-before-use typestate (full verifier, inline conjunction, verifying consumer, loop alias; half verifier, early use, bad consumer, ||, raw return)",
-		Good: []string{"good-GoodVerifier", "good-GoodInline", "good-GoodConsumer", "good-GoodLoop"},
-		Bad:  []string{"bad-BadHalf", "bad-BadEarly", "bad-BadConsumer", "bad-BadOr", "bad-BadReturn"},
+		Good: []string{"good-GoodVerifier", "good-GoodInline", "good-GoodConsumer", "good-GoodLoop", "good-GoodNamedBool"},
+		Bad:  []string{"bad-BadHalf", "bad-BadEarly", "bad-BadConsumer", "bad-BadOr", "bad-BadReturn", "bad-BadNamedBool"},
 		Run: func(c *Ctx) {
 			raw := c.P.FuncObj("ctl/typestate.(*table).raw")
 			same := c.P.FuncObj("ctl/typestate.sameName")
